@@ -1259,20 +1259,22 @@ func runBatch(cs []Case) []outcome {
 // three further unperturbed executions.
 func confirmed(c *Case, sig string) bool {
 	okRuns := 0
-	for try := 0; try < 9 && okRuns < 3; try++ {
-		r := runAndJudge(c)
-		if r.o.Harness != "" {
-			return false
+	for round := 0; round < 3 && okRuns < 3; round++ {
+		// the executions of a round run concurrently (they are sleep-bound)
+		for _, r := range runBatch([]Case{*c, *c, *c}) {
+			if r.o.Harness != "" {
+				return false
+			}
+			if r.v.Perturbed {
+				continue
+			}
+			if r.v.Sig != sig {
+				return false
+			}
+			okRuns++
 		}
-		if r.v.Perturbed {
-			continue
-		}
-		if r.v.Sig != sig {
-			return false
-		}
-		okRuns++
 	}
-	return okRuns == 3
+	return okRuns >= 3
 }
 
 func clone(c *Case) Case {
@@ -1406,7 +1408,7 @@ func simpler(c *Case) []Case {
 
 func minimise(c *Case, sig string) Case {
 	cur := clone(c)
-	deadline := time.Now().Add(20 * time.Second)
+	deadline := time.Now().Add(12 * time.Second)
 	for round := 0; round < 25 && time.Now().Before(deadline); round++ {
 		cands := simpler(&cur)
 		if len(cands) == 0 {
@@ -1415,6 +1417,9 @@ func minimise(c *Case, sig string) Case {
 		// every candidate is executed twice (the candidates of a round run
 		// concurrently); it is taken when both executions show the signature
 		first := runBatch(cands)
+		if time.Now().After(deadline) {
+			break
+		}
 		second := runBatch(cands)
 		same := func(r outcome) bool { return r.o.Harness == "" && !r.v.Perturbed && r.v.Sig == sig }
 		next := -1
@@ -1501,6 +1506,12 @@ func check(t ev.TB, c *Case) {
 // them concurrently (the cases are sleep-bound).
 func TestStrategies(t *testing.T) {
 	rapid.Check(t, func(t *rapid.T) {
+		// After a reported violation rapid executes the property again to
+		// shrink its own input; the minimal case is already saved as JSON, so
+		// these executions fail at once with the same report.
+		for sig, m := range minimal {
+			ev.Violation(t, sig, &m.c, "%s", m.detail)
+		}
 		batch := make([]Case, batchSize)
 		for k := range batch {
 			batch[k] = genCase(t)
